@@ -903,6 +903,7 @@ func runC13(c *Ctx) error {
 		x.i = 3*n + i
 		x.edgeCase(c.rng.Fork())
 	}
+	x.valueVsText()
 	x.fixedCases()
 	return nil
 }
